@@ -154,7 +154,7 @@ let gen_history ?(ka = 0) (idx : int) (prof : cprofile) (oc : out_channel) =
     | 5 -> gw (Pubrel (nn (some_mid ())))
     | 6 -> gw (pick [WillTopicReq; WillMsgReq])
     | 7 -> gw (pick [Puback (nn 1, nn (some_mid ()), nn 0); Pubrec (nn (some_mid ())); Pubcomp (nn (some_mid ()));
-                     Regack (nn (fresh_tid ()), nn (some_mid ()), nn 0); Suback (nn 0, nn 1, nn (some_mid ()), nn 0); Unsuback (nn (some_mid ())); Pingresp;
+                     Regack (nn (fresh_tid ()), nn (some_mid ()), nn 0); Suback (nn 0, nn (fresh_tid ()), nn (some_mid ()), nn 0); Unsuback (nn (some_mid ())); Pingresp;
                      Connack (nn 0)])
     | 8 -> gw (Disconnect (nn 0))
     | 9 -> emit_or_skip ("GW " ^ hex_of_bytes (List.init (rnd 5) (fun _ -> nn (rnd 256))))
